@@ -259,6 +259,14 @@ def compare(interp, st, op, a, b):
             r = a.z == b.z
         elif isinstance(a, SV) and isinstance(b, SV) and isinstance(a.ty, sym.Opaque) and a.ty == b.ty and getattr(a.ty, 'identity', False):
             r = a.z == b.z          # opaque objects whose identity is their value (enum members, sentinels)
+        elif (isinstance(a, SV) and isinstance(b, SV) and (isinstance(a.ty, Opt) or isinstance(b.ty, Opt))
+              and getattr((a.ty.inner if isinstance(a.ty, Opt) else a.ty), 'identity', False)
+              and (a.ty.inner if isinstance(a.ty, Opt) else a.ty) == (b.ty.inner if isinstance(b.ty, Opt) else b.ty)):
+            # Optional[sentinel-like] against the sentinel: identical iff present and equal
+            def parts(x):
+                return (z3.Not(x.ty.is_none(x.z)), x.ty.val(x.z)) if isinstance(x.ty, Opt) else (z3.BoolVal(True), x.z)
+            (pa, va), (pb, vb) = parts(a), parts(b)
+            r = z3.Or(z3.And(pa, pb, va == vb), z3.And(z3.Not(pa), z3.Not(pb)))
         elif isinstance(a, (Obj, Model, Closure)) or isinstance(b, (Obj, Model, Closure)):
             r = z3.BoolVal(a is b)
         elif isinstance(a, bool) or isinstance(b, bool):
@@ -440,6 +448,10 @@ def getattr_(interp, st, v, name):
         yield from v.vf_getattr(interp, st, name)
         return
     if isinstance(v, Obj):
+        gk = f'attr:{v._name}.{name}'
+        if name in getattr(v, '_settable', ()) and gk in st.ghost:
+            yield st, st.ghost[gk]           # an attribute this path has set (self.x = ..; later self.x)
+            return
         a = v.get(name)
         if isinstance(a, Property):
             yield from a.fn(interp, st, v)
@@ -478,6 +490,9 @@ def getattr_(interp, st, v, name):
                     yield st, Model(c.name, lambda i, s, a, k, c=c, v=v: c.fn(i, s, [v] + list(a), k))
                 else:
                     yield st, c
+                return
+            if cls.keyed and name in ('get',):
+                yield st, Bound(v, name)       # dict-like record: methods are bound lazily (models.record_method)
                 return
             raise Unsupported(f'{cls.name} has no modelled attribute {name!r}')
     if isinstance(v, SV) and isinstance(v.ty, sym.Opaque):
@@ -968,6 +983,11 @@ def iterspec(interp, st, v):
         return it
     if isinstance(v, SV) and hasattr(v.ty, 'iterspec'):
         return v.ty.iterspec(interp, st, v)
+    if isinstance(v, Unknown):
+        # iterating over unknown state: an unknown number of unknown items
+        v.note(interp, st)
+        n = z3.Int(sym.fresh_name('unknown_len'))
+        return IterSpec(n, lambda i, v=v: Unknown(f'{v.name}[i]', v.owner), [n >= 0])
     from .models import MapVal
     if isinstance(v, MapVal) and hasattr(v.f, 'pure'):
         src = iterspec(interp, st, v.over)
